@@ -1,13 +1,26 @@
 #!/usr/bin/env python3
-"""mkmeta.py <seeded dir> <property> <caught-by (comma list or 'none')> <notes…>: writes meta.json from the agent's meta"""
+"""mkmeta.py <seeded dir> <property> <caught-by (comma list or 'none')> <notes…>: writes meta.json from the agent's meta
+(meta.agent.json, as saved by save_seed.sh) or updates an existing meta.json"""
 import json, sys, os
 d, prop, caught = sys.argv[1], sys.argv[2], sys.argv[3]
 notes = " ".join(sys.argv[4:])
-a = json.load(open(os.path.join(d, "meta.agent.json")))
-m = {"breaks_property": prop, "what": a.get("what"), "needs_to_manifest": a.get("needs"), "files": a.get("files"),
-     "demonstration": a.get("demo"), "agent_ran": a.get("ran"),
+ap = os.path.join(d, "meta.agent.json")
+mp = os.path.join(d, "meta.json")
+a = json.load(open(ap if os.path.exists(ap) else mp))
+def pick(*ks):
+    for k in ks:
+        if a.get(k) is not None:
+            return a[k]
+    return None
+m = {"breaks_property": prop, "what": pick("what", "change", "description"),
+     "needs_to_manifest": pick("needs_to_manifest", "needs", "trigger"), "files": pick("files"),
+     "demonstration": pick("demonstration", "demo"), "agent_ran": pick("agent_ran", "ran", "tests_run"),
      "confirmed_by_me": "in the agent's scratch worktree: demo fails with patch.diff applied and passes with it reversed; the existing tests of the affected packages pass with the patch",
-     "checks_that_catch_it": [] if caught == "none" else caught.split(","), "notes": notes}
-json.dump(m, open(os.path.join(d, "meta.json"), "w"), indent=1)
-os.remove(os.path.join(d, "meta.agent.json"))
+     "checks_that_catch_it": [] if caught == "none" else caught.replace(",", " ").split(), "notes": notes}
+extra = {k: v for k, v in a.items() if k not in m and k not in ("needs", "demo", "ran")}
+if extra:
+    m["agent_other"] = extra
+json.dump(m, open(mp, "w"), indent=1)
+if os.path.exists(ap):
+    os.remove(ap)
 print("ok")
